@@ -16,6 +16,9 @@ R11.3 column compression (_indexed): on EVERY equality pattern of up to 5 column
       and counts equal to the class sizes -- decided by evaluating the function body on pattern labels.
 R11.4 the root weighs each unique column by its count: self.counts comes from _indexed, is what
       get_log_sum_across_sites hands to the kernel, and the kernel adds log(lh[i]) * counts[i] over all i.
+R11.6 a (tips, outgroup) scope names the same edges for every rooting: get_edge_names always re-roots at the outgroup.
+R11.7 a zero branch length is kept (default only for a missing length).
+R09.6 / R09.13 (shared with C09) the re-rooting operations keep every path length.
 R11.5 child/likelihood pairing in the product: the per-child index arrays are the transposed unique
       patterns in children order, paired positionally with the children once (zip), and the kernel reads
       child_indexes[child] with likelihoods[child] for the same child.
@@ -368,11 +371,69 @@ def r11_5(chk):
     chk.floor("R11.5", 4, "assignments, zip, transpose, kernel")
 
 
+def r11_6(chk):
+    chk.rule("R11.6", "a parameter scope given as (two tips, outgroup) denotes the same edges however the tree happens to be rooted: TreeNode.get_edge_names, when an outgroup is named, ALWAYS computes the clade on a copy re-rooted at that outgroup -- the re-binding from outgroup.unrooted_deepcopy() sits directly in the `outgroup_name is not None` block (after the tip check), under no further condition, and the connecting node is looked up on the re-rooted tree")
+    m = chk.repo.module("core/tree.py")
+    q = "TreeNode.get_edge_names"
+    fn = m.func(q)
+    k = key(m, q, "re-rooted at the outgroup unconditionally")
+    blocks = [i for i in fn.body if isinstance(i, ast.If) and "outgroup_name" in norm(i.test)]
+    if not blocks:
+        chk.violation("R11.6", k, m.loc(fn), "no `outgroup_name is not None` block: the clade is read off the tree as rooted, so the same (tips, outgroup) scope names different edges for different rootings")
+        chk.floor("R11.6", 1, "get_edge_names")
+        return
+    b = blocks[0]
+    REROOT = ("unrooted_deepcopy", "rooted_at", "rooted_with_tip", "unrooted")
+    top = [st for st in b.body if isinstance(st, ast.Assign) and isinstance(st.value, ast.Call) and isinstance(st.value.func, ast.Attribute) and st.value.func.attr in REROOT]
+    nested = [st for x in b.body if not isinstance(x, ast.Assign) for st in ast.walk(x) if isinstance(st, ast.Assign) and isinstance(st.value, ast.Call) and isinstance(st.value.func, ast.Attribute) and st.value.func.attr in REROOT]
+    if top:
+        tgt = norm(top[0].targets[0])
+        uses = [c for st in fn.body[fn.body.index(b) + 1:] for c in ast.walk(st) if isinstance(c, ast.Call) and isinstance(c.func, ast.Attribute) and c.func.attr == "get_connecting_node"]
+        on_new = bool(uses) and all(norm(c.func.value) == tgt for c in uses)
+        chk.decide(on_new, "R11.6", k, m.loc(top[0]), f"`{norm(top[0])}` then {tgt}.get_connecting_node(...)", f"the tree is re-rooted into `{tgt}` but the connecting node is looked up on `{norm(uses[0].func.value) if uses else '?'}`")
+    elif nested:
+        chk.violation("R11.6", k, m.loc(nested[0]), f"`{norm(nested[0])}` happens only under a further condition: for the rootings that skip it the last common ancestor of the two tips can be the root, and the clade then takes in the outgroup's own edge -- the same scope gives different edge sets (and lnL) for different rootings of one tree")
+    else:
+        chk.violation("R11.6", k, m.loc(b), "the outgroup block no longer re-roots the tree")
+    chk.floor("R11.6", 1, "get_edge_names")
+
+
+def r11_7(chk):
+    chk.rule("R11.7", "a branch length of exactly zero is a length: where the likelihood function takes its initial lengths from the tree (evolve/parameter_controller.py) the default replaces only a MISSING length (`is None`), never a falsy one -- `edge.length or default` turns the zero-length edge that splitting an edge into (0, L) creates (tree.bifurcating() does so by default) into an edge of length 1.0, and lnL changes")
+    m = chk.repo.module("evolve/parameter_controller.py")
+    n = 0
+    for q, fn in m.all_functions():
+        for x in walk_no_nested(fn):
+            hit = None
+            if isinstance(x, ast.BoolOp) and isinstance(x.op, ast.Or) and isinstance(x.values[0], ast.Attribute) and x.values[0].attr == "length":
+                hit = x
+            elif isinstance(x, ast.IfExp) and isinstance(x.test, ast.Attribute) and x.test.attr == "length":
+                hit = x
+            elif isinstance(x, ast.If) and ((isinstance(x.test, ast.Attribute) and x.test.attr == "length") or (isinstance(x.test, ast.UnaryOp) and isinstance(x.test.op, ast.Not) and isinstance(x.test.operand, ast.Attribute) and x.test.operand.attr == "length")):
+                hit = x.test
+            if hit is not None:
+                n += 1
+                chk.violation("R11.7", key(m, q, "length default on None only"), m.loc(hit), f"`{norm(hit)[:60]}` treats a length of 0.0 as missing: (a:0.1,b:0.2,(c:0.3)x:0.0,d:0.4) is evaluated with x = 1.0")
+        sets = [c for c in walk_no_nested(fn) if isinstance(c, ast.Call) and isinstance(c.func, ast.Attribute) and c.func.attr == "set_param_rule" and c.args and norm(c.args[0]) == "'length'" and any(kw.arg == "init" for kw in c.keywords)]
+        for c in sets:
+            chk.ok("R11.7", key(m, q, "initial length from the tree"), m.loc(c), f"`{norm(c)[:70]}`")
+    chk.floor("R11.7", 1, "set_default_tree_parameter_rules")
+
+
 def run(chk):
     r11_1(chk)
+    r11_7(chk)
+    r11_6(chk)
     r11_2(chk)
     r11_3(chk)
     r11_4(chk)
     r11_5(chk)
+    # moving the root is done with the tree's own re-rooting operations: that they keep every path length (the dissolved
+    # root edge's length goes to all kept children, promoted nodes keep theirs) is C09's R09.6 / R09.13, and a necessary
+    # condition of "lnL does not change when the root is moved" -- shared here
+    from . import c09
+
+    c09.r09_6(chk)
+    c09.r09_13(chk)
     chk.assume("tree edge names are unique (enforced when a likelihood function is made) and set_alignment asserts that sequence names and tip names coincide")
     chk.assume("not decided: invariance under moving the root (time-reversible models) and under splitting an edge (time-homogeneous models); these are numerical identities")
